@@ -431,6 +431,7 @@ class C18(Prop):
             return {'cfg': cfg, 'ops': [], 'kind': 'desig', 'via': via,
                     'desig': d}
         cfg = gen.gen_base_cfg(rng, seed, nwatch=(2, 2, 3), kids=True,
+                               stop_children_p=0.3,
                                numproc=(1, 2, 3), singleton_p=0.0,
                                kinds=('obedient', 'slow', 'stubborn'),
                                grace=[0.05, 0.25, 1.0], warmup=[0, 0.05])
